@@ -16,13 +16,16 @@ struct Scenario {
 }
 
 fn scenarios(thorough: bool) -> Vec<Scenario> {
-  // call table of harness/loomh: 0 All(A=5) 1 Quote(A=500) 2 All(A=42) 3 Quote(A=5) 4 All(A=500) 5 Quote(A=42) 6 Many(S=abcz) 7 Many(S=xyz) 8 Three(A=5) 9 Three(A=42)
+  // call table of harness/loomh (10 Rate() 11 Scale(x=3) 12 Svc(A=5), invoked by name): 0 All(A=5) 1 Quote(A=500) 2 All(A=42) 3 Quote(A=5) 4 All(A=500) 5 Quote(A=42) 6 Many(S=abcz) 7 Many(S=xyz) 8 Three(A=5) 9 Three(A=42)
   let mut v = vec![
     Scenario { plan: "1/3", what: "two threads, the decision that invokes the decision service as a function, different inputs", bound: "2" },
     Scenario { plan: "0/2", what: "two threads, the decision over table, regular expression and temporal decisions, different inputs", bound: "2" },
     Scenario { plan: "0/1", what: "two threads, different invocables", bound: "2" },
     Scenario { plan: "6/7", what: "two threads, a decision that applies twenty different regular expressions to its input (more distinct keys than a small bounded cache holds)", bound: "2" },
     Scenario { plan: "8/9", what: "two threads whose first evaluations of a decision with three knowledge requirements overlap on a freshly built evaluator", bound: "2" },
+    Scenario { plan: "10/8", what: "two threads, a knowledge model without parameters invoked by name while the other thread evaluates the decision with three knowledge requirements", bound: "2" },
+    Scenario { plan: "11/9", what: "two threads, a knowledge model invoked by name with its argument while the other thread evaluates a decision that requires it", bound: "2" },
+    Scenario { plan: "12/3", what: "two threads, the decision service invoked by name while the other thread evaluates the decision that invokes it as a function", bound: "2" },
     Scenario { plan: "0,0/2", what: "two threads, one repeating its own call while the other evaluates the same decision with another input (what a call site keeps between a thread's own calls)", bound: "2" },
   ];
   if thorough {
@@ -176,7 +179,7 @@ pub fn run() {
       } else {
         per.insert(s.plan.to_string(), json!({"what": s.what, "complete": false, "failed": class}));
         run.violation(
-          &format!("{}:{}", class, if s.plan.contains('1') || s.plan.contains('3') || s.plan.contains('5') { "service-invoking-decision-involved" } else { "plain-decisions" }),
+          &format!("{}:{}", class, if s.plan.split(|c| c == '/' || c == ',').any(|i| matches!(i, "1" | "3" | "5" | "12")) { "service-invoking-decision-involved" } else { "plain-decisions" }),
           &format!("scenario {} ({}; preemption bound {}): {}", s.plan, s.what, bound, detail),
           replay,
         );
